@@ -136,7 +136,7 @@ _TIMEOUTS = [0]
 
 
 def _limited(f, obj, seconds=2.0):
-    """run f(obj) under a wall-clock limit (a tree that validation made grow can make repr /
+    """run f(obj) under a CPU-time limit (a tree that validation made grow can make repr /
     annotation inference exponentially slow: that must show up as a difference, not as a hang)"""
     import signal
     import threading
@@ -144,16 +144,18 @@ def _limited(f, obj, seconds=2.0):
         return f(obj)
     if _TIMEOUTS[0] > 15:
         seconds = 0.25          # this process keeps meeting pathological trees: do not wait long
-    old = signal.signal(signal.SIGALRM, _alarm)
-    signal.setitimer(signal.ITIMER_REAL, seconds)
+    # the limit is on the CPU time of this process, not on wall-clock time: a loaded machine
+    # must not turn into a difference between "before" and "after"
+    old = signal.signal(signal.SIGVTALRM, _alarm)
+    signal.setitimer(signal.ITIMER_VIRTUAL, seconds)
     try:
         return f(obj)
     except _Slow:
         _TIMEOUTS[0] += 1
         return "!timeout"
     finally:
-        signal.setitimer(signal.ITIMER_REAL, 0)
-        signal.signal(signal.SIGALRM, old)
+        signal.setitimer(signal.ITIMER_VIRTUAL, 0)
+        signal.signal(signal.SIGVTALRM, old)
 
 
 def _texts(obj):
@@ -164,6 +166,30 @@ def _texts(obj):
             out.append(_limited(f, obj))
         except Exception as exc:  # noqa
             out.append("!" + type(exc).__name__)
+    return out
+
+
+def _texts_same(texts0, texts1, obj):
+    """component-wise comparison of two _texts() results taken before / after a call on obj.
+    A time limit that fired is not an observation: if it fired only AFTER, the text is computed
+    again with a generous limit (a tree that grew pathologically still times out, and that IS a
+    difference); if it fired BEFORE, the earlier text cannot be recovered: inconclusive (same)."""
+    from statham.serializers import serialize_json, serialize_python
+    fns = (repr, lambda o: json.dumps(serialize_json(o), sort_keys=True, default=repr), serialize_python)
+    out = []
+    for a, b, f in zip(texts0, texts1, fns):
+        if a == "!timeout":
+            out.append(True)
+        elif b == "!timeout":
+            saved, _TIMEOUTS[0] = _TIMEOUTS[0], 0
+            try:
+                b2 = _limited(f, obj, seconds=20.0)
+            except Exception as exc:  # noqa
+                b2 = "!" + type(exc).__name__
+            _TIMEOUTS[0] = saved
+            out.append(a == b2)
+        else:
+            out.append(a == b)
     return out
 
 
@@ -242,7 +268,9 @@ def replay_history(task):
             snap1 = drive.deep_snapshot(objs.values())
             texts1 = _texts(target)
             flags["snapSame"] = snap0 == snap1
-            flags["reprSame"], flags["jsonSame"], flags["pySame"] = (a == b for a, b in zip(texts0, texts1))
+            flags["reprSame"], flags["jsonSame"], flags["pySame"] = _texts_same(texts0, texts1, target)
+            if texts0 != texts1:        # kept for the replay file: what exactly differed
+                rec["texts_before"], rec["texts_after"] = [t[:400] for t in texts0], [t[:400] for t in texts1]
             try:
                 flags["eqFreshAfter"] = bool(target == fresh_pre)
             except Exception:  # noqa
@@ -273,7 +301,8 @@ def replay_history(task):
             post = _proj_heap(objs)
         if x in ("D", "F"):
             parent_after = ([drive.call(objs["C"], v)[0] for v in values], _texts(objs["C"])[1])
-            flags["parentObsSame"] = parent_before == parent_after
+            flags["parentObsSame"] = parent_before[0] == parent_after[0] and \
+                _texts_same(["", parent_before[1], ""], ["", parent_after[1], ""], objs["C"])[1]
         rec.update(pre=pre, post=post, flags=flags)
     except Exception as exc:  # noqa
         rec["error"] = type(exc).__name__ + ": " + str(exc)[:200]
@@ -331,7 +360,7 @@ def sweep_state(st):
     flags["inputSame"], flags["repeatSame"] = input_same, repeat_same
     flags["snapSame"] = drive.deep_snapshot([el]) == snap0
     texts1 = _texts(el)
-    flags["reprSame"], flags["jsonSame"], flags["pySame"] = (a == b for a, b in zip(texts0, texts1))
+    flags["reprSame"], flags["jsonSame"], flags["pySame"] = _texts_same(texts0, texts1, el)
     try:
         flags["eqFreshAfter"] = bool(el == fresh)
     except Exception:  # noqa
@@ -610,4 +639,4 @@ def _h(hist):
 
 
 def _slim(rec):
-    return {k: v for k, v in rec.items() if k in ("flags", "out", "again", "fresh", "flat", "error", "n")}
+    return {k: v for k, v in rec.items() if k in ("flags", "out", "again", "fresh", "flat", "error", "n", "texts_before", "texts_after")}
